@@ -177,7 +177,10 @@ def check_case(case):
     if r['kind'] == 'wall_timeout' and case.get('wall_verdict'):
         # a statement the tool rejects within milliseconds: confirm with twice the wall budget before calling it
         r = child.run_world(w, wall_timeout=2 * child.WALL_TIMEOUT)
-    if case.get('faults') and all(f.get('kind') == 'stdout_epipe' for f in case['faults']) and failed(r):
+    fired = r.get('fired', [])
+    if fired and all(f.get('kind') == 'stdout_epipe' for f in fired) and failed(r):
+        # (decided by the faults that FIRED: a planned write fault that found nothing to write - an empty image
+        # window - leaves a pure stdout failure; false alarm of soak 779)
         # what the complete image of this very case looks like (fault-free twin), for the stdout-failure clause
         twin = dict(case, faults=[])
         rt = child.run_world(build_world(twin))
